@@ -182,6 +182,31 @@ def extract_walrus(modules, rep):
                     break
 
 
+# ---------------------------------------------------------------------------------------------- N19 getattr / setattr
+def constant_attr_access(modules, rep):
+    """`getattr(x, 'name')` is `x.name`, the statement `setattr(x, 'name', v)` is `x.name = v` (identifier constants)."""
+    for rel, sc, fn in all_functions(modules):
+        class G(ast.NodeTransformer):
+            def visit_Call(self, node):
+                self.generic_visit(node)
+                if isinstance(node.func, ast.Name) and node.func.id == "getattr" and len(node.args) == 2 and not node.keywords \
+                        and isinstance(node.args[1], ast.Constant) and isinstance(node.args[1].value, str) and node.args[1].value.isidentifier():
+                    return ast.copy_location(ast.Attribute(node.args[0], node.args[1].value, ast.Load()), node)
+                return node
+        fn.body = [G().visit(st) for st in fn.body]
+        for owner, fld, stmts in list(_blocks(fn)):
+            for i, st in enumerate(stmts):
+                if isinstance(st, ast.Expr) and isinstance(st.value, ast.Call) and isinstance(st.value.func, ast.Name) and st.value.func.id == "setattr" \
+                        and len(st.value.args) == 3 and not st.value.keywords and isinstance(st.value.args[1], ast.Constant) \
+                        and isinstance(st.value.args[1].value, str) and st.value.args[1].value.isidentifier():
+                    a = st.value.args
+                    new = ast.copy_location(ast.Assign([ast.Attribute(a[0], a[1].value, ast.Store())], a[2], lineno=st.lineno), st)
+                    ast.fix_missing_locations(new)
+                    stmts[i] = new
+                    rep.other.append(f"setattr with a constant name at {rel}:{st.lineno} read as an attribute assignment")
+        ast.fix_missing_locations(fn)
+
+
 # ---------------------------------------------------------------------------------------------- N7 parameters
 def _params(fn):
     a = fn.args
@@ -318,6 +343,59 @@ def unroll_constant_loops(modules, known, rep):
             while i < len(stmts):
                 st = stmts[i]
                 i += 1
+                if isinstance(st, ast.For) and not st.orelse and isinstance(st.target, ast.Tuple) and isinstance(st.iter, (ast.Tuple, ast.List)) and _is_fresh(st, fn, kh):
+                    # for a, b in ((A1, B1), (A2, B2)): if <test>: ...; break      ==      if test[1]: ...  elif test[2]: ...
+                    names_ = [e.id for e in st.target.elts if isinstance(e, ast.Name)]
+                    rows = st.iter.elts
+                    okc = lambda e: isinstance(e, ast.Constant) or (isinstance(e, ast.Attribute) and isinstance(e.value, ast.Name) and e.value.id[:1].isupper())  # noqa: E731
+                    if len(names_) == len(st.target.elts) and 0 < len(rows) <= 16 and all(isinstance(r, ast.Tuple) and len(r.elts) == len(names_) and all(okc(e) for e in r.elts) for r in rows) \
+                            and len(st.body) == 1 and isinstance(st.body[0], ast.If) and not st.body[0].orelse and st.body[0].body and isinstance(st.body[0].body[-1], ast.Break) \
+                            and sum(1 for x_ in ast.walk(st) if isinstance(x_, (ast.Break, ast.Continue))) == 1 \
+                            and not any(isinstance(n, ast.Name) and n.id in names_ for s2 in stmts[i:] for n in ast.walk(s2)) \
+                            and not any(isinstance(n, ast.Name) and n.id in names_ and isinstance(n.ctx, ast.Store) for b in st.body for n in ast.walk(b)):
+                        node = []
+                        for r in reversed(rows):
+                            mp = dict(zip(names_, r.elts))
+
+                            class S2(ast.NodeTransformer):
+                                def visit_Name(self, nd):
+                                    if nd.id in mp and isinstance(nd.ctx, ast.Load):
+                                        return ast.copy_location(copy.deepcopy(mp[nd.id]), nd)
+                                    return nd
+                            inner = st.body[0]
+                            test = S2().visit(copy.deepcopy(inner.test))
+                            body = [S2().visit(copy.deepcopy(b)) for b in inner.body[:-1]] or [ast.copy_location(ast.Pass(), inner)]
+                            node = [ast.copy_location(ast.If(test, body, node), st)]
+                        for n in node:
+                            ast.fix_missing_locations(n)
+                        stmts[i - 1:i] = node
+                        rep.other.append(f"first-match loop over {len(rows)} constant rows at {rel}:{st.lineno} read as an if/elif chain")
+                        continue
+                    # for a, b in ((x1, K1), (x2, K2)): BODY   (no break / continue / nested loop; row elements are constants, enum
+                    # members or locals that BODY does not assign)  ==  BODY[row 1]; BODY[row 2]
+                    stored_ = {n.id for b in st.body for n in ast.walk(b) if isinstance(n, ast.Name) and isinstance(n.ctx, (ast.Store, ast.Del))}
+                    okr = lambda e: okc(e) or (isinstance(e, ast.Name) and e.id not in stored_)  # noqa: E731
+                    if len(names_) == len(st.target.elts) and 0 < len(rows) <= 16 and all(isinstance(r, ast.Tuple) and len(r.elts) == len(names_) and all(okr(e) for e in r.elts) for r in rows) \
+                            and not any(isinstance(n, (ast.Break, ast.Continue, ast.For, ast.While, ast.AsyncFor)) for b in st.body for n in ast.walk(b)) \
+                            and not (stored_ & set(names_)) \
+                            and not any(isinstance(n, ast.Name) and n.id in names_ for s2 in stmts[i:] for n in ast.walk(s2)):
+                        new_ = []
+                        for r in rows:
+                            mp = dict(zip(names_, r.elts))
+
+                            class S3(ast.NodeTransformer):
+                                def visit_Name(self, nd):
+                                    if nd.id in mp and isinstance(nd.ctx, ast.Load):
+                                        return ast.copy_location(copy.deepcopy(mp[nd.id]), nd)
+                                    return nd
+                            for b in st.body:
+                                c = S3().visit(copy.deepcopy(b))
+                                ast.fix_missing_locations(c)
+                                new_.append(c)
+                        stmts[i - 1:i] = new_
+                        i += len(new_) - 1
+                        rep.other.append(f"loop over {len(rows)} literal rows at {rel}:{st.lineno} read as its {len(new_)} unrolled statement(s)")
+                    continue
                 if not (isinstance(st, ast.For) and not st.orelse and isinstance(st.target, ast.Name) and isinstance(st.iter, (ast.Tuple, ast.List)) and _is_fresh(st, fn, kh)):
                     continue
                 elts = st.iter.elts
@@ -594,6 +672,76 @@ def expand_keyed_arms(modules, known, rep):
                     break
                 if changed:
                     break
+
+
+# ---------------------------------------------------------------------------------------------- N20 tuple locals
+def split_tuple_locals(modules, known, rep):
+    """A new local that is only ever assigned tuple displays of one arity and only read as `t[<constant index>]` is that many
+    scalar locals (`t = (a, b)` -> `t__0 = a; t__1 = b`, `t[1]` -> `t__1`)."""
+    kl = known.get("locals") or {}
+    for rel, sc, fn in all_functions(modules):
+        key = f"{rel}::{sc}.{fn.name}"
+        if key not in kl:
+            continue
+        known_locals = set(kl[key])
+        params = set(_params(fn))
+        kh = _known_hashes(known, rel, sc, fn)
+        if kh is None:
+            continue
+        cands = {}
+        for n in ast.walk(fn):
+            if isinstance(n, ast.Assign) and len(n.targets) == 1 and isinstance(n.targets[0], ast.Name):
+                t = n.targets[0].id
+                if t in params or (t in known_locals and not _is_fresh(n, fn, kh)):
+                    cands[t] = None
+                    continue
+                if t in cands and cands[t] is None:
+                    continue
+                if isinstance(n.value, ast.Tuple) and not any(isinstance(e, ast.Starred) for e in n.value.elts):
+                    cands.setdefault(t, []).append(n)
+                else:
+                    cands[t] = None
+        for t, defs in list(cands.items()):
+            if not defs:
+                continue
+            k = len(defs[0].value.elts)
+            if any(len(d.value.elts) != k for d in defs):
+                continue
+            uses_ok = True
+            all_stores = [n for n in ast.walk(fn) if isinstance(n, ast.Name) and n.id == t and isinstance(n.ctx, (ast.Store, ast.Del))]
+            if len(all_stores) != len(defs):
+                continue
+            parents = {}
+            for p_ in ast.walk(fn):
+                for c_ in ast.iter_child_nodes(p_):
+                    parents[id(c_)] = p_
+            for n in ast.walk(fn):
+                if isinstance(n, ast.Name) and n.id == t and isinstance(n.ctx, ast.Load):
+                    p_ = parents.get(id(n))
+                    if not (isinstance(p_, ast.Subscript) and p_.value is n and isinstance(p_.ctx, ast.Load) and isinstance(p_.slice, ast.Constant)
+                            and isinstance(p_.slice.value, int) and 0 <= p_.slice.value < k):
+                        uses_ok = False
+            if not uses_ok:
+                continue
+            names = [f"{t}__{i}" for i in range(k)]
+            # element values must not read the scalars being assigned in the same statement (they do not exist before)
+            for owner, fld, stmts in list(_blocks(fn)):
+                for i, st in enumerate(list(stmts)):
+                    if st in defs:
+                        idx = stmts.index(st)
+                        new = [ast.copy_location(ast.Assign([ast.Name(nm, ast.Store())], v, lineno=st.lineno), st) for nm, v in zip(names, st.value.elts)]
+                        for x in new:
+                            ast.fix_missing_locations(x)
+                        stmts[idx:idx + 1] = new
+
+            class S(ast.NodeTransformer):
+                def visit_Subscript(self, node):
+                    self.generic_visit(node)
+                    if isinstance(node.value, ast.Name) and node.value.id == t and isinstance(node.slice, ast.Constant):
+                        return ast.copy_location(ast.Name(names[node.slice.value], ast.Load()), node)
+                    return node
+            fn.body = [S().visit(st) for st in fn.body]
+            rep.other.append(f"tuple local `{t}` in {sc + '.' if sc else ''}{fn.name} read as {k} scalar locals")
 
 
 # ---------------------------------------------------------------------------------------------- N5 / N6 fresh locals
